@@ -130,10 +130,32 @@ func vfWinDecorate(r *vfRand, line string, kinds int, density int, st *vfNoiseSt
 		st.junk++
 	}
 	noDigitH := false // the previous gap ended in W3/W4
+	noLF := false     // the previous letter followed a cursor home and a positioned move follows it (W6): no wrap before the next letter
 	for i := 0; i < len(line); i++ {
 		// gap in front of line[i]
 		hasLF, hasDH := false, false
 		special := false
+		if noLF {
+			// after W6 only wrap-free noise: a wrap here would make the next letter overwrite the previous one (that is W4)
+			noLF = false
+			if kinds&1 != 0 && r.Intn(2) == 0 {
+				out = append(out, vfCSI(r, true)...)
+				st.csi++
+			}
+			noDigitH = false
+			out = append(out, line[i])
+			continue
+		}
+		if i > 0 && i+1 < len(line) && kinds&16 != 0 && !noDigitH && r.Intn(density*4) == 0 {
+			// W6: cursor home, a genuine letter, a positioned move - and no wrap: nothing is re-printed, nothing is dropped
+			out = append(out, "\x1b[H"...)
+			out = append(out, line[i])
+			out = append(out, vfCSIH(r)...)
+			st.home++
+			noLF = true
+			noDigitH = true
+			continue
+		}
 		if i > 0 && kinds&8 != 0 && !noDigitH && r.Intn(density*2) == 0 {
 			// W3: the previous letter re-printed after a cursor move
 			for k := r.Intn(3); k > 0; k-- {
